@@ -52,6 +52,7 @@ class TracepointConfigService:
     def __init__(self) -> None:
         """Create new tracepoint config service."""
         self._custom: List['Trigger'] = []
+        self._custom_ids: List[str] = []
         self._tracepoint_config: List['Trigger'] = []
         self._current_hash = None
         self._last_update = 0
@@ -161,13 +162,17 @@ class TracepointConfigService:
         :param metrics: the tracepoint metrics
         :return: the new TracePointConfig
         """
-        config = build_trigger(str(uuid.uuid4()), path, line, args, watches, metrics)
+        tp_id = str(uuid.uuid4())
+        config = build_trigger(tp_id, path, line, args, watches, metrics)
         if config is None:
             # refuse visibly, and do not keep an entry the handler cannot use
             raise ValueError("Cannot interpret tracepoint arguments: %s" % (args,))
         self._custom.append(config)
+        # the handle is the id of this registration; the location id (path#line) is shared by every
+        # registration on the same line
+        self._custom_ids.append(tp_id)
         self.__trigger_update(None, None)
-        return config.id
+        return tp_id
 
     def remove_custom(self, _id: str):
         """
@@ -175,8 +180,9 @@ class TracepointConfigService:
 
         :param _id: the id of the config to remove
         """
-        for idx, cfg in enumerate(self._custom):
-            if cfg.id == _id:
+        for idx, tp_id in enumerate(self._custom_ids):
+            if tp_id == _id:
                 del self._custom[idx]
+                del self._custom_ids[idx]
                 self.__trigger_update(None, None)
                 return
